@@ -71,7 +71,8 @@ def make_flags(args: List[str], plugins: Optional[List[Any]] = None, cache_key: 
     key = cache_key
     if key is not None and key in _flags_cache:
         return _flags_cache[key]
-    base = ['--threadless', '--num-workers', '1', '--num-acceptors', '1', '--log-level', 'CRITICAL']
+    base = ['--threaded' if opts.pop('threaded', False) else '--threadless', '--num-workers', '1', '--num-acceptors', '1',
+            '--log-level', 'CRITICAL']
     if plugins is not None:
         opts['plugins'] = plugins
     flags = FlagParser.initialize(base + list(args), **opts)
@@ -235,14 +236,14 @@ class StepRig:
         return it
 
     def until(self, pred: Callable[[], bool], pump: Iterable[Peer] = (), idle_timeout: float = 1.0,
-              max_iter: int = 5000000, max_stall: float = 8.0) -> bool:
+              max_iter: int = 5000000, max_stall: float = 8.0, max_wall: float = 40.0) -> bool:
         """Iterate (draining `pump`) until pred() holds.  Gives up only after `idle_timeout` seconds of
         wall-clock time during which neither the proxy nor the peers moved a byte, so a late loopback
         delivery is never mistaken for loss.  Returns pred()'s final value."""
         pump = list(pump)
         idle_since: Optional[float] = None
         it = 0
-        last_peer_byte = time.time()
+        last_peer_byte = t_start = time.time()
         try:
             while it < max_iter:
                 moved = 0
@@ -254,10 +255,14 @@ class StepRig:
                 it += 1
                 if moved:
                     last_peer_byte = time.time()
-                elif it % 256 == 0 and time.time() - last_peer_byte > max_stall:
-                    # the proxy keeps itself busy (socket calls every iteration) but no byte has reached any
-                    # pumped peer for max_stall seconds: pred() is not going to become true
-                    break
+                if it % 64 == 0:
+                    now = time.time()
+                    if now - t_start > max_wall:
+                        break       # bytes keep flowing but pred() stays false (e.g. an endless stream): give up
+                    if now - last_peer_byte > max_stall:
+                        # the proxy keeps itself busy (socket calls every iteration) but no byte has reached any
+                        # pumped peer for max_stall seconds: pred() is not going to become true
+                        break
                 if moved or self.idle_streak == 0:
                     idle_since = None
                     self.sel.hold = 0.0
